@@ -82,3 +82,25 @@ def grow_while_asking(api, recs, d, rng, ask, strings):
         else:
             outcome_of(c.add_prefix, r.prefix, r.uri_prefix, list(r.psyn), list(r.usyn))
     return c
+
+
+def use_as_input_of_derivations(api, c, rng):
+    """Chain `c` with a converter that overlaps it and brings new synonyms, subset it and merge into the subset.
+
+    Correct code leaves `c` untouched; the caller then asks `c` again (monitored against c's own records).
+    Only for converters with the default delimiter.  Returns strings worth asking afterwards.
+    """
+    recs = list(spec.snapshot(c))
+    if not recs or c.delimiter != ":":
+        return []
+    r0 = rng.choice(recs)
+    other = api.Converter([
+        api.Record(prefix="zzp", uri_prefix=r0.uri_prefix, prefix_synonyms=["zzsyn"], uri_prefix_synonyms=[r0.uri_prefix + "zz_"]),
+        api.Record(prefix="zzother", uri_prefix="http://zz.other/"),
+    ])
+    outcome_of(api.chain, [c, other])
+    so = outcome_of(c.get_subconverter, [r0.prefix])
+    if so[0] == "ret":
+        outcome_of(so[1].add_prefix, r0.prefix, r0.uri_prefix, ["zzsyn2"], [r0.uri_prefix + "yy_"], merge=True)
+    probe.S.counters["wl:asked-again-after-being-derived-from"] += 1
+    return ["zzp", "zzsyn", "zzsyn2", r0.uri_prefix + "zz_1", r0.uri_prefix + "yy_1", r0.prefix, r0.uri_prefix + "1"]
